@@ -1,8 +1,11 @@
 package rules
 
 import (
+	"fmt"
 	"go/token"
 	"golang.org/x/tools/go/ssa"
+	"sort"
+	"strings"
 
 	"sheensverif/internal/flow"
 	"sheensverif/internal/prog"
@@ -306,4 +309,126 @@ func siteInFn(fn *ssa.Function, in ssa.Instruction) ssa.Instruction {
 		}
 	})
 	return site
+}
+
+// resolveThroughLocals resolves v to leaf definitions like deepDefs, and in
+// addition looks through loads of fields of structs that were allocated inside
+// scope (a struct literal and the values stored into its fields): the leaf of
+// `m.State.NodeName` is whatever was stored into NodeName of the State that was
+// stored into m.State.  Leaves are SSA values; constants are returned as such.
+func resolveThroughLocals(v ssa.Value, scope []*ssa.Function) []ssa.Value {
+	seen := map[ssa.Value]bool{}
+	var out []ssa.Value
+	var rec func(v ssa.Value, depth int)
+	// allocsOf: the local allocations a pointer value can be
+	allocsOf := func(p ssa.Value) []*ssa.Alloc {
+		var as []*ssa.Alloc
+		for _, d := range deepDefs(p, scope) {
+			if a, ok := d.(*ssa.Alloc); ok {
+				as = append(as, a)
+			} else {
+				return nil // not (only) local
+			}
+		}
+		return as
+	}
+	rec = func(v ssa.Value, depth int) {
+		if depth > 8 {
+			out = append(out, v)
+			return
+		}
+		for _, d := range deepDefs(v, scope) {
+			if seen[d] {
+				continue
+			}
+			seen[d] = true
+			ld, isLd := d.(*ssa.UnOp)
+			if !isLd || ld.Op != token.MUL {
+				out = append(out, d)
+				continue
+			}
+			fa, isFA := ld.X.(*ssa.FieldAddr)
+			if !isFA {
+				out = append(out, d)
+				continue
+			}
+			// the object whose field is read: fa.X itself, or what a pointer-valued field / variable holds
+			var objs []*ssa.Alloc
+			if a, ok := fa.X.(*ssa.Alloc); ok {
+				objs = []*ssa.Alloc{a}
+			} else {
+				// fa.X may be a load of another local field (m.State): resolve that first
+				var inner []ssa.Value
+				sub := resolveThroughLocals(fa.X, scope)
+				inner = append(inner, sub...)
+				for _, iv := range inner {
+					if a, ok := iv.(*ssa.Alloc); ok {
+						objs = append(objs, a)
+					} else {
+						objs = nil
+						break
+					}
+				}
+				if objs == nil {
+					objs = allocsOf(fa.X)
+				}
+			}
+			if len(objs) == 0 {
+				out = append(out, d)
+				continue
+			}
+			n := 0
+			for _, f := range scope {
+				ssau.Instrs(f, func(in ssa.Instruction) {
+					st, ok := in.(*ssa.Store)
+					if !ok {
+						return
+					}
+					fb, isFB := st.Addr.(*ssa.FieldAddr)
+					if !isFB || fb.Field != fa.Field {
+						return
+					}
+					for _, o := range objs {
+						hit := fb.X == ssa.Value(o)
+						if !hit {
+							for _, bd := range deepDefs(fb.X, scope) {
+								if bd == ssa.Value(o) {
+									hit = true
+								}
+							}
+						}
+						if hit {
+							n++
+							rec(st.Val, depth+1)
+						}
+					}
+				})
+			}
+			if n == 0 {
+				out = append(out, d)
+			}
+		}
+	}
+	rec(v, 0)
+	return out
+}
+
+// leafSetKey: a canonical description of a set of leaves (constants by value).
+func leafSetKey(vs []ssa.Value) string {
+	var ks []string
+	seen := map[string]bool{}
+	for _, v := range vs {
+		k := ""
+		if cst, ok := v.(*ssa.Const); ok {
+			k = "const:" + cst.String()
+		} else {
+			k = fmt.Sprintf("%p", v)
+		}
+		if !seen[k] {
+			seen[k] = true
+			ks = append(ks, k)
+		}
+	}
+	sort.Strings(ks)
+	return strings.Join(ks, ",")
 }
